@@ -156,14 +156,15 @@ namespace _fmt_basics {
 
 		// The sign and the prefix are part of the field: they count towards the width,
 		// space padding goes in front of them, zero padding between them and the digits.
-		int final_width = max(k, precision) + extra;
+		// (in long long: with a precision of INT_MAX the sign, the prefix and the separators do not fit into an int any more)
+		long long final_width = static_cast<long long>(max(k, precision)) + static_cast<long long>(extra);
 		if(negative || always_sign || plus_becomes_space)
 			final_width++;
 		for(const char *p = prefix; *p; p++)
 			final_width++;
 
 		if(!left_justify && padding == ' ' && final_width < width)
-			for(int i = 0; i < width - final_width; i++)
+			for(long long i = 0; i < width - final_width; i++)
 				sink.append(padding);
 
 		if(negative)
@@ -176,7 +177,7 @@ namespace _fmt_basics {
 		sink.append(prefix);
 
 		if(!left_justify && padding != ' ' && final_width < width)
-			for(int i = 0; i < width - final_width; i++)
+			for(long long i = 0; i < width - final_width; i++)
 				sink.append(padding);
 
 		if(k < precision) {
@@ -193,7 +194,7 @@ namespace _fmt_basics {
 
 		// A left-justified field is always padded with spaces.
 		if(left_justify && final_width < width)
-			for(int i = final_width; i < width; i++)
+			for(long long i = final_width; i < width; i++)
 				sink.append(' ');
 	}
 
